@@ -727,6 +727,14 @@ def evaluate_smt_formula(
             return Some(ThreeValuedTruth.false())
 
     def fallback(_) -> Maybe[ThreeValuedTruth]:
+        # As in `process_translation`: No definite result for open instantiations.
+        if any(
+            assignments[var][1].is_open()
+            for var in formula.free_variables()
+            if var in assignments
+        ):
+            return Some(ThreeValuedTruth.unknown())
+
         return Some(
             is_valid(
                 z3.substitute(
